@@ -64,13 +64,13 @@ CHECKS["C19"] = dict(
     cat="model_checking", design="6/C19",
     technique="copy detection, provisional (REP) hashes, pre-hash, --force-nocopy, search and import fetch modelled in Array.tla; real histories with decoys (same name/size/stamp, other content) validated by TLC against it; invariant on real states: no block recorded as synced with a hash that is not the hash of its data",
     text="TLC validates every sync and fix of seeded histories with true copies and decoys on other disks and in import directories, moves, zero and non-zero sub-second stamps, -h and --force-nocopy against the specification (admissible copy sources, REP blocks verified before they become BLK, pre-hash mismatch stops before any parity write, fetched blocks only by matching hash) and evaluates the C19 invariant and FixHonest on the real states.",
-    note="Inode-based identity (same inode, size, stamp) is not exercised: no usable UUID in the sandbox; disks scanned sequentially in the conformance runs (parallel scan race = finding F11).")
+    note="Inode-based identity (same inode, size, stamp) is exercised with --test-fake-uuid (profile 'inodes'); it exhibits finding F13 (same path, size and stamp with another inode is taken as restored, unread), reported by signature; disks scanned sequentially in the conformance runs (parallel scan race = finding F11).")
 
 CHECKS["C11"] = dict(
     cat="model_checking", design="6/C11",
     technique="scan and sync of Array.tla validated by TLC on traces over the full alphabet of file-system changes; invariants C11_AfterSync / C11_Diff / C11_List evaluated by TLC on the real states (files, symbolic and hard links, empty directories)",
     text="TLC validates every sync of histories over the whole alphabet of changes against the specification and evaluates on the projected real state that a successful full sync leaves no difference (files, links, empty directories, unsynced blocks), that diff exits 2 exactly when something differs, that list prints exactly the recorded entries and that synced blocks carry the hash of the data on disk.",
-    note="No usable inodes in the sandbox (path/size/stamp matching only); forced alphabetical order and sequential disk scan.")
+    note="The sandbox has no UUIDs: scans that trust inode numbers are exercised with --test-fake-uuid (profile 'inodes': moves, exchanged names, twins, new inodes, changed UUIDs; InoClaims / InoRename of Array.tla); forced alphabetical order and sequential disk scan.")
 CHECKS["C15"] = dict(
     cat="model_checking", design="6/C15",
     technique="ScrubPlan.tla: declarative selection vs transcription of scrub.c checked by TLC for all small info arrays and arguments; liveness of repeated default scrubs under fairness; real scrubs with a controlled clock validated against ScrubPlanTrace.tla (selection from parity reads, limits, books)",
@@ -94,7 +94,7 @@ for pid, cat, tech, text in [
     ("C06", "model_checking", "ArrayMC.tla explored by TLC with ParityValid/MapSane evaluated after every command; the same invariants evaluated by TLC on projected states of real runs (ArrayTrace.tla)",
      "TLC explores all histories of edits, complete/killed/partially skipped syncs and fix within the small bounds and checks the invariants in every state; the whole command set (rehash, scrub, sync -R, filtered fixes) is simulated on ArrayMC_ext; traces of the real binary over seeded random histories (ranges, copies, -F, -R, pre-hash, killed syncs, rehash, filtered fix, touch) are validated step by step against the same specification and the invariants are evaluated on every real state (independent content decoder and parity recomputation)."),
     ("C05", "model_checking", "ArrayMC.tla: FixHonest as action property, TLC exhaustive + simulation; trace validation of real fix runs with the version store as oracle; announced counterexamples replayed on the binary",
-     "TLC checks on the model that fix never leaves a wrong block unreported, for all bounded histories including interrupted syncs; real fix runs (whole, -S/-B ranges, under -d / -f / -m / -e / -b, with import directories) are validated against the specification and against the version store; files outside the selection must stay untouched. The two announced defects (F1, F2) are found by TLC on the model, confirmed by replay, and reported as known findings, as is F7 (reduced hash sizes); anything else fails the check."),
+     "TLC checks on the model that fix never leaves a wrong block unreported, for all bounded histories including interrupted syncs; real fix runs (whole, -S/-B ranges, under -d / -f / -m / -e / -b, with import directories) are validated against the specification and against the version store; files outside the selection must stay untouched. The histories TLC finds for every branch of the repair logic (spec/witness/fixgoals.json, 27 histories) are executed on the binary, which must go through the branch each was found for. The two announced defects (F1, F2) are found by TLC on the model, confirmed by replay, and reported as known findings, as is F7 (reduced hash sizes); anything else fails the check."),
     ("C01", "model_checking", "ArrayMC.tla: FixRestores for every damage within the parity count; trace validation + version-store comparison of real damage/fix/check rounds over configurations",
      "TLC enumerates clean-synced states x damage patterns within NP per stripe and checks that fix restores everything; real arrays (1..6 parities incl. z-parity, several disk counts, both hash functions, reduced hash sizes, split parity, a hash migration in progress, symbolic and hard links, empty directories) are damaged within bounds (devices lost, files deleted, silent corruption, parity lost or corrupted, names of same-size files exchanged), fixed and compared byte for byte and time stamp for time stamp with the version store, links and directories included, then checked."),
     ("C04", "model_checking", "detection sets of check/scrub compared (both directions) with the ground-truth damage computed in TLA+ on the projected real state; TLC model of check/scrub validated by traces",
